@@ -1026,7 +1026,13 @@ def analyze(plan, r):
     if fam == "satreuse" and r.status == "quiescent":
         want = plan["saturate_to"]
         slots = sorted({getattr(ex_.get("cq"), "_maxsize", None) for ex_ in env.all_executors if ex_.get("cq") is not None} - {None})
-        if len(RUNNING_NOW) != want:
+        nblock = sum(1 for k in r.kinds.values() if k == "block")
+        bound = min([want, nblock] + slots[:1])
+        if len(RUNNING_NOW) < bound:
+            # Model/QueueCap.v, C08_delivered_parallelism_partial: a settled pool runs at least min(workers, slots, unfinished) tasks
+            add(["C08"], "under-parallel", f"saturated-pool-runs[{len(RUNNING_NOW)}]-below-the-proved-bound[{bound}] ctx[{ctx}] queue-slots[{','.join(map(str, slots))}]",
+                f"blocked: {blocked}")
+        elif len(RUNNING_NOW) != want:
             # how many slots the call queue has is part of the history: it is created once, sized from the host (5 in the simulation)
             add(["C08"], "under-parallel", f"saturated-pool-runs[{len(RUNNING_NOW)}]-of[{want}] ctx[{ctx}] queue-slots[{','.join(map(str, slots))}]",
                 f"blocked: {blocked}")
